@@ -104,8 +104,21 @@ pub fn o_token(s: &String, st: &mut Stats) -> Result<(), String> {
     Ok(())
 }
 
+fn o_hist(h: &crate::history::Hist<TwoSpellings>, st: &mut Stats) -> Result<(), String> {
+    let s = spell(&h.inner.tuple, &h.inner.a).assemble();
+    crate::history::judge(h, &s, o_two, st)
+}
+
 pub fn sections() -> Vec<Box<dyn Section>> {
     vec![
+        Box::new(Random {
+            name: "two-spellings-after-a-prelude".into(),
+            quick: 16_000,
+            thorough: 400_000,
+            strategy: Box::new(|_| crate::history::ghist(gtwo())),
+            oracle: o_hist,
+            required: vec!["typed-instantiation"],
+        }),
         Box::new(Random {
             name: "two-spellings".into(),
             quick: 300_000,
